@@ -26,12 +26,13 @@ CLAIMS = {
          "copeland_victories of the library are compared with the model and re-checked against the cost definition inside Coq.",
          "Trusted: Coq kernel + vm_compute; hand-written model; harness; numpy argsort returns a permutation; float scores on the half-point grid.",
          "DESIGN.md section 4, C13"),
- "C01": ("Coq model of kemeny_score_computation.py (function by function) + spec kemeny_spec; theorems (partial) + vm_compute correspondence",
-         "PARTIAL proof. Proved for all inputs: refusal of a candidate lacking a dataset element (iff), the merge step counts exactly the "
-         "cross inversions and cross equal pairs (merge_correct), non-negativity, and (C02) that the definitional cost table sums to the spec. "
-         "The equality get_kemeny_score = kemeny_spec itself is, in this version, NOT a theorem: it is decided by evaluating, inside Coq, the "
-         "faithful model, the literal specification and the library's answer on the same inputs (API level and the eight per-ranking counters).",
-         "Trusted: Coq kernel + vm_compute; hand-written model and spec; harness; exact float sums on the 1/8000 grid. Missing lemma named in Props/C01.v.",
+ "C01": ("Coq model of kemeny_score_computation.py (function by function) + spec kemeny_spec; theorem model = spec for all inputs + vm_compute correspondence model = code",
+         "Machine-checked for all inputs (unbounded sizes): the model of get_kemeny_score returns exactly the generalized pairwise-penalty sum "
+         "(C01_kemeny_impl_correct) for every scheme with the documented relations and every duplicate-free candidate / dataset, and refuses "
+         "exactly when the candidate lacks a dataset element (C01_kemeny_impl_total); each counter of the code is characterised (merge sort "
+         "inversion count, within-bucket runs, bucket loop, prefix tables). Tie to the code: the model, the literal specification and the library's "
+         "answer are evaluated inside Coq on the same inputs (API level and the eight per-ranking counters).",
+         "Trusted: Coq kernel + vm_compute; hand-written model tied by correspondence only; harness; exact float sums on the 1/8000 grid.",
          "DESIGN.md section 4, C01"),
  "C20": ("Coq invariant-by-induction over a Gallina model of the Markov moves of ranking.py + exhaustive per-move correspondence",
          "Machine-checked: each of the six moves preserves the dense-bucket-numbering invariant (under the guards the code applies), "
